@@ -160,6 +160,24 @@ def run(P, C, tier):
             C.saw(b)
             cs = b.calls_to(re.escape(callee) + "$")
             ok = len(cs) == 1
+            if not cs:
+                # iterator form: `rows.iter().try_for_each(|x| x.verify())?` -- the closure verifies its element and returns the result,
+                # the driver's result is propagated with `?`
+                for ti, tt in b.calls_to(r"Iterator::try_for_each$"):
+                    a_ = b.call_args(ti, expand_vars=True)
+                    clo = mir.strip_refs(a_[1]) if len(a_) > 1 else ("unknown",)
+                    cb_ = P.bodies.get(clo[2]) if clo[0] == "aggr" and clo[1] == "closure" else None
+                    re_t = mir.result_edges(b, ti)
+                    if cb_ is None or re_t is None or re_t["via"] != "?":
+                        continue
+                    vc = cb_.calls_to(re.escape(callee) + "$")
+                    rv_ = mir.strip_refs(cb_.place_term([0], 0, True))
+                    over_param = mir.has_call(a_[0], r"::iter$|::iter_mut$|::into_iter$") is not None
+                    if len(vc) == 1 and rv_[0] == "call" and rv_[3] == vc[0][0] and over_param:
+                        C.ob("R2", "loop:" + fn, True, b.loc(ti), "every element is verified (try_for_each) and a failure is propagated with `?`")
+                        ok = None
+                if ok is None:
+                    continue
             if ok:
                 bi = cs[0][0]
                 it = mir.full_path(b, b.call_args(bi)[0])
